@@ -405,7 +405,24 @@ def from_json(j):
 # ---------------------------------------------------------------------------
 # implementation driver
 
+def _readonly_queries(x, probes):
+    """Queries that only read must not change anything: the multi-key unions (and the iterators) are run before
+    the snapshot is taken, on the present names in two orders, results dropped."""
+    pk = [n for n in probes if x.has_package(n)]
+    tg = [n for n in probes if x.has_tag(n)]
+    for f, keys in ((x.tags_of_packages, pk), (x.packages_of_tags, tg)):
+        for ks in (keys, list(reversed(keys)), keys[:2], keys[1:]):
+            if ks:
+                try:
+                    f(ks)
+                except Exception:
+                    pass
+    for it in (x.iter_packages, x.iter_tags, x.iter_packages_tags, x.iter_tags_packages):
+        list(it())
+
+
 def _snap(x, probes):
+    _readonly_queries(x, probes)
     return {
         "db": sorted((p, sorted(ts)) for p, ts in x.iter_packages_tags()),
         "rdb": sorted((t, sorted(ps)) for t, ps in x.iter_tags_packages()),
